@@ -21,6 +21,8 @@ func init() {
 
 func c27(r *core.Run) {
 	w := r.W
+	c27KeyAgreesWithItems(r)
+	c27RoutesPersisted(r)
 	const T = "pkg/routetab.Table"
 	const P = "pkg/routetab.pendCallResTab"
 	la := core.NewLockAnalysis(w, "pkg/routetab")
